@@ -23,8 +23,10 @@
 (*  - a lone "+" : Empty or InvalidDigit; only underscores: likewise;       *)
 (*  - a string that has an invalid character AND a run of digits before the *)
 (*    first / after the last invalid character so long that no numeral of   *)
-(*    that length fits the target: InvalidDigit or the size error (both     *)
-(*    documented conditions hold, the documentation gives no precedence).   *)
+(*    that length fits the limbs of the target: InvalidDigit or InputSize   *)
+(*    (both documented conditions hold, the documentation gives no          *)
+(*    precedence); never Precision, which is documented for a decoded       *)
+(*    integer only.                                                         *)
 EXTENDS BigNat
 
 LOCAL Has(e, f) == f \in DOMAIN e
@@ -80,10 +82,13 @@ LOCAL Analyse(s, radix) ==
 
 LOCAL FitsTarget(v, tk, bits) == tk = "unb" \/ Fits(v, bits)
 
-LOCAL SizeErr(e) == /\ e.k = "err"
-                    /\ e.tk # "unb"
-                    /\ \/ e.e = "InputSize"
-                       \/ e.tk = "prec" /\ e.e = "Precision"
+(* The documented size errors (doc comment of from_str_radix_with_precision_vartime): InputSize when the     *)
+(* numeral does not fit the limbs of the target (the precision rounded up to whole limbs, at least one),   *)
+(* Precision when it fits the limbs but not the requested precision.  Fixed targets only have InputSize.   *)
+LOCAL Cap(e) == IF e.tk = "prec" THEN (IF e.bits = 0 THEN 64 ELSE Up64(e.bits)) ELSE e.bits
+LOCAL SizeErr(e, val) == /\ e.k = "err"
+                         /\ e.tk # "unb"
+                         /\ IF Fits(val, Cap(e)) THEN e.tk = "prec" /\ e.e = "Precision" ELSE e.e = "InputSize"
 
 LOCAL IsErr(e, c) == e.k = "err" /\ e.e = c
 
@@ -100,13 +105,14 @@ LOCAL ParseOutcome(e, Good(_)) ==
     CASE a.cls = "empty"   -> IsErr(e, "Empty") \/ (a.signed /\ IsErr(e, "InvalidDigit"))
       [] a.cls = "blank"   -> IsErr(e, "InvalidDigit") \/ IsErr(e, "Empty")
       [] a.cls = "invalid" -> \/ IsErr(e, "InvalidDigit")
-                              \/ /\ SizeErr(e)
+                              \/ /\ IsErr(e, "InputSize")              \* never Precision: no integer was decoded
+                                 /\ e.tk # "unb"
                                  /\ a.run > 0
-                                 /\ ~Fits(MaxOfLen(e.radix, a.run), e.bits)
+                                 /\ ~Fits(MaxOfLen(e.radix, a.run), Cap(e))
       [] a.cls = "num"     -> \/ a.dbl /\ IsErr(e, "InvalidDigit")
                               \/ IF FitsTarget(a.val, e.tk, e.bits)
                                    THEN e.k = "ok" /\ Good(a.val)
-                                   ELSE SizeErr(e)
+                                   ELSE SizeErr(e, a.val)
 
 LOCAL JudgeParse(e) ==
   LET Good(val) == /\ e.v = val
